@@ -1225,3 +1225,36 @@ for _p in ('C03', 'C04', 'C05', 'C06', 'C07', 'C09', 'C11', 'C12', 'C13', 'C15',
           why='only the position of the first trial changes: this property is unaffected')
 dtwin('c04-checkpoint-saves-value-and-z', 'C04', 'seeded/twins/checkpoint-saves-value-and-z-separately.diff',
       why='the value and z of every trial are saved under their own keys and restored from them (R04.9 agrees)')
+dtwin('c09-inverse-rejects-raw-point', '*', 'seeded/twins/inverse-rejects-raw-point-outside-raw-bounds.diff',
+      why='the inverse queries validate the raw point against the raw bounds: no point of the box is rejected (R09.7)')
+fire('c07-image-rounded-method', 'C07', EV, 'Evolvent.GetImage', 'return np.copy(self.yValues)',
+     'return self.yValues.round(12)', 'R07.8')
+fire('c07-image-float32', 'C07', EV, 'Evolvent.GetImage', 'return np.copy(self.yValues)',
+     'return np.copy(self.yValues).astype(np.float32)', 'R07.8')
+fire('c07-image-clipped-to-decimal-box', 'C07', EV, 'Evolvent.GetImage', 'return np.copy(self.yValues)',
+     'return np.clip(np.copy(self.yValues), -1e6, 1e6)', 'R07.8')
+twin('c07-image-array-float64', 'C07', EV, 'Evolvent.GetImage', 'return np.copy(self.yValues)',
+     'return np.array(self.yValues, dtype=np.double)')
+twin('c07-image-copy-method-astype64', 'C07', EV, 'Evolvent.GetImage', 'return np.copy(self.yValues)',
+     'return self.yValues.copy().astype(np.float64)')
+fire('c09-assert-transformed-in-cube', 'C09', EV, 'Evolvent.GetInverseImage', '        self.__TransformD2P()\n',
+     '        self.__TransformD2P()\n        assert np.all(np.abs(self.yValues) <= 0.5), "point outside the domain"\n', 'R09.7')
+twin('c09-length-check-before-transform', 'C09', EV, 'Evolvent.__TransformD2P',
+     '        for i in range(0, self.numberOfFloatVariables):\n',
+     '        if len(self.yValues) < self.numberOfFloatVariables:\n            raise ValueError("too few coordinates")\n        for i in range(0, self.numberOfFloatVariables):\n')
+fire('c16-handler-reports-through-warnings', 'C16', P, 'Process.Solve', "print('Exception was thrown')",
+     "import warnings\n            warnings.warn('the objective raised; the search was stopped')", 'R16.7')
+twin('c16-handler-reports-through-logging', 'C16', P, 'Process.Solve', "print('Exception was thrown')",
+     "import logging\n            logging.getLogger(__name__).warning('the objective raised; the search was stopped')")
+dtwin('c13-end-iteration-from-finally-after-eval', '*', 'seeded/twins/end-iteration-from-finally-records-after-evaluation.diff',
+      why='OnEndIteration is sent from a finally: block, but the new item is recorded after its evaluation: the list '
+          'holds evaluated trials only (R13.9)')
+dtwin('c18-fn-setter-rebuilds-everything', '*', 'seeded/twins/fn-setter-rebuilds-optimum-and-coefficient-rows.diff',
+      why='the member-number setter re-derives the known optimum and the cached coefficient rows (R18.9)')
+dtwin('c12-console-rows-bounded-by-point', '*', 'seeded/twins/console-rows-bounded-by-the-point-itself.diff',
+      why='one console row per point of the call, the coordinate loop bounded by the length of the point itself (R12.6)')
+dtwin('c17-setbounds-validates-then-commits', '*', 'seeded/twins/setbounds-validates-then-commits.diff',
+      why='SetBounds validates converted copies held in locals and assigns both bounds only after every check passed (R17.9)')
+dtwin('c20-density-validation-accepts-numpy-integers', '*', 'seeded/twins/density-validation-accepts-numpy-integers.diff',
+      why='the constructor validates the density (integral floats converted, non-integers / non-positive values replaced '
+          'by the default) and its type test lets numpy integers through (R20.7)')
